@@ -3,10 +3,16 @@
 //! zeroes, fsync is the identity on contents.  Records every request, can fail
 //! chosen requests, can reject unaligned requests (direct-I/O mode), and can
 //! gate completion so that a scheduler decides the completion order.
+//!
+//! The contents are kept sparse (`SparseBuf`: 64 KiB chunks, absent = zeroes), like a
+//! file with holes: a write through a corrupted pointer several hundred MiB past the end
+//! extends the length without touching the gap.  (A dense `Vec<u8>` made such a case cost
+//! a gigabyte of page faults, which a freshly restored sandbox served so slowly that the
+//! C14 watchdog took it for a hang - DESIGN 10.21.)
 use qcow2_rs::error::Qcow2Result;
 use qcow2_rs::ops::Qcow2IoOps;
 use std::cell::RefCell;
-use std::collections::BTreeSet;
+use std::collections::{BTreeMap, BTreeSet};
 use std::future::Future;
 use std::pin::Pin;
 use std::rc::Rc;
@@ -61,7 +67,7 @@ struct Pending {
 
 pub struct SimState {
     pub name: String,
-    pub data: Vec<u8>,
+    pub data: SparseBuf,
     pub log: Vec<Req>,
     pub fail_ids: BTreeSet<usize>,
     /// fail every punch request (so that `call_fallocate` falls back to zero writes)
@@ -83,7 +89,7 @@ impl SimFile {
     pub fn new(name: &str, data: Vec<u8>) -> Self {
         SimFile(Rc::new(RefCell::new(SimState {
             name: name.to_string(),
-            data,
+            data: SparseBuf::from_vec(data),
             log: Vec::new(),
             fail_ids: BTreeSet::new(),
             punch_unsupported: false,
@@ -101,7 +107,7 @@ impl SimFile {
     }
 
     pub fn snapshot(&self) -> Vec<u8> {
-        self.0.borrow().data.clone()
+        self.0.borrow().data.to_vec()
     }
 
     pub fn len(&self) -> usize {
@@ -162,34 +168,154 @@ impl SimFile {
     }
 }
 
-fn do_read(data: &[u8], off: u64, len: usize) -> (Vec<u8>, usize) {
-    let off = off as usize;
-    if off >= data.len() {
-        return (Vec::new(), 0);
-    }
-    let n = std::cmp::min(len, data.len() - off);
-    (data[off..off + n].to_vec(), n)
+const CHUNK_BITS: u32 = 16;
+const CHUNK: usize = 1 << CHUNK_BITS;
+
+/// byte string of length `len`; chunks not in the map are all zero
+pub struct SparseBuf {
+    len: usize,
+    chunks: BTreeMap<usize, Box<[u8]>>,
 }
 
-fn do_write(data: &mut Vec<u8>, off: u64, buf: &[u8]) {
-    let off = off as usize;
-    if buf.is_empty() {
-        return;
+impl SparseBuf {
+    pub fn from_vec(v: Vec<u8>) -> Self {
+        let mut b = SparseBuf { len: 0, chunks: BTreeMap::new() };
+        b.write(0, &v);
+        b
     }
-    if data.len() < off + buf.len() {
-        data.resize(off + buf.len(), 0);
+
+    pub fn len(&self) -> usize {
+        self.len
     }
-    data[off..off + buf.len()].copy_from_slice(buf);
+
+    pub fn to_vec(&self) -> Vec<u8> {
+        let mut v = vec![0u8; self.len];
+        for (i, c) in &self.chunks {
+            let off = i << CHUNK_BITS;
+            if off < self.len {
+                let n = CHUNK.min(self.len - off);
+                v[off..off + n].copy_from_slice(&c[..n]);
+            }
+        }
+        v
+    }
+
+    /// `f(chunk index, offset in the chunk, offset in the request, length)` for every piece of `[off, off+len)`
+    fn pieces(off: usize, len: usize, mut f: impl FnMut(usize, usize, usize, usize)) {
+        let mut done = 0;
+        while done < len {
+            let pos = off + done;
+            let inner = pos & (CHUNK - 1);
+            let n = (CHUNK - inner).min(len - done);
+            f(pos >> CHUNK_BITS, inner, done, n);
+            done += n;
+        }
+    }
+
+    /// short at the end of the file
+    fn read(&self, off: usize, len: usize) -> Vec<u8> {
+        if off >= self.len {
+            return Vec::new();
+        }
+        let n = len.min(self.len - off);
+        let mut out = vec![0u8; n];
+        Self::pieces(off, n, |ci, inner, at, k| {
+            if let Some(c) = self.chunks.get(&ci) {
+                out[at..at + k].copy_from_slice(&c[inner..inner + k]);
+            }
+        });
+        out
+    }
+
+    /// extends the file (zero fill) when it ends past the current length
+    fn write(&mut self, off: usize, buf: &[u8]) {
+        if buf.is_empty() {
+            return;
+        }
+        self.len = self.len.max(off + buf.len());
+        Self::pieces(off, buf.len(), |ci, inner, at, k| {
+            let c = self.chunks.entry(ci).or_insert_with(|| vec![0u8; CHUNK].into_boxed_slice());
+            c[inner..inner + k].copy_from_slice(&buf[at..at + k]);
+        });
+    }
+
+    /// zeroes the part of the range inside the file; the length is kept
+    fn punch(&mut self, off: usize, len: usize) {
+        if off >= self.len {
+            return;
+        }
+        let n = len.min(self.len - off);
+        Self::pieces(off, n, |ci, inner, _, k| {
+            if k == CHUNK {
+                self.chunks.remove(&ci);
+            } else if let Some(c) = self.chunks.get_mut(&ci) {
+                c[inner..inner + k].fill(0);
+            }
+        });
+    }
 }
 
-fn do_punch(data: &mut [u8], off: u64, len: usize) {
-    let off = off as usize;
-    if off >= data.len() {
-        return;
+fn do_read(data: &SparseBuf, off: u64, len: usize) -> (Vec<u8>, usize) {
+    let d = data.read(off as usize, len);
+    let n = d.len();
+    (d, n)
+}
+
+fn do_write(data: &mut SparseBuf, off: u64, buf: &[u8]) {
+    data.write(off as usize, buf);
+}
+
+fn do_punch(data: &mut SparseBuf, off: u64, len: usize) {
+    data.punch(off as usize, len);
+}
+
+#[cfg(test)]
+mod tests {
+    use super::*;
+
+    // the sparse store against the dense reference it replaced
+    fn dense_write(d: &mut Vec<u8>, off: usize, buf: &[u8]) {
+        if buf.is_empty() {
+            return;
+        }
+        if d.len() < off + buf.len() {
+            d.resize(off + buf.len(), 0);
+        }
+        d[off..off + buf.len()].copy_from_slice(buf);
     }
-    let end = std::cmp::min(data.len(), off + len);
-    for b in &mut data[off..end] {
-        *b = 0;
+
+    #[test]
+    fn sparse_equals_dense() {
+        let mut rng = crate::util::Rng::new(7);
+        for _ in 0..200 {
+            let init: Vec<u8> = (0..rng.below(200_000)).map(|_| rng.next() as u8).collect();
+            let mut d = init.clone();
+            let mut s = SparseBuf::from_vec(init);
+            for _ in 0..60 {
+                let off = rng.below(400_000) as usize;
+                let len = if rng.chance(1, 4) { rng.below(200_000) } else { rng.below(5000) } as usize;
+                match rng.below(3) {
+                    0 => {
+                        let buf: Vec<u8> = (0..len).map(|_| rng.next() as u8 | 1).collect();
+                        dense_write(&mut d, off, &buf);
+                        s.write(off, &buf);
+                    }
+                    1 => {
+                        if off < d.len() {
+                            let end = d.len().min(off + len);
+                            d[off..end].fill(0);
+                        }
+                        s.punch(off, len);
+                    }
+                    _ => {
+                        let want = if off >= d.len() { Vec::new() } else { d[off..d.len().min(off + len)].to_vec() };
+                        assert_eq!(s.read(off, len), want);
+                    }
+                }
+                assert_eq!(s.len(), d.len());
+            }
+            assert_eq!(s.to_vec(), d);
+        }
     }
 }
 
